@@ -4,6 +4,10 @@
 (* ISK signature cached as the code does ("if self.signature and not force: return"): TLC finds the     *)
 (* shortest history that exports a stale signature - a PREDICTION that the harness then replays on the  *)
 (* real object (only the R-spec's rejection of the real observation is a finding).                      *)
+(* RotMC_tab.cfg: the construction-history lane on its own - FREE exploration of StartT / SetSlot /      *)
+(* AppendSlot / ClearT / AddCertificate / ComputeT (any builder, origin, slot, key, form, order and      *)
+(* repetition to depth 6) with HistoryFree, SameAsFresh (the value of an object = the value of a fresh   *)
+(* object built from its key list in one go) and WriteIsLocal (a write replaces, it does not shift).     *)
 EXTENDS Rot
 VARIABLE lane       \* the four parts of the machine do not interact: one lane per behaviour keeps the state graph small
 K(c, i) == Key(c, i)
@@ -28,6 +32,23 @@ DoSetUserData == \E len \in {0, 8} : len # obj.ud.len /\ SetUserData(len)
 DoSetConstraints == \E c \in {0, 1} : SetConstraints(c)
 DoBuild1 == \E ks \in Menu1 : \E used \in 1..Len(ks) : \E img \in {0, 4660} : Build1(ks, used, img, 3)
 DoSetImageLength == \E n \in {2048} : SetImageLength(n)
+\* construction histories: FREE exploration (any builder, any origin, any slot, any of two keys, any form, any order, any repetition)
+KeysOfFl(fl) == IF Indexed(fl) \/ fl \in {"hab", "pfr1"} THEN {K("rsa2048", 1), K("rsa2048", 2)} ELSE {K("p256", 1), K("p256", 2)}
+TInits(fl) == {<<>>} \cup {<<Slot(a, FALSE)>> : a \in KeysOfFl(fl)} \cup {<<Slot(a, FALSE), Slot(b, FALSE)>> : a, b \in KeysOfFl(fl)}
+              \cup (IF Indexed(fl) THEN {} ELSE {<<Slot(a, TRUE), Slot(b, TRUE)>> : a, b \in KeysOfFl(fl)})
+              \cup (IF fl \in {"ahab", "ahab2"} THEN {[i \in 1..4 |-> Slot(K("p256", i), FALSE)]} ELSE {})
+DoStartT == \E fl \in Flavours : \E og \in Origins(fl) : \E init \in TInits(fl) : \E cert \in {NoKey} \cup KeysOfFl(fl) : StartT(fl, og, init, cert)
+DoSetSlot == \E i \in 1..4 : \E k \in KeysOfFl(tab.fl) : \E form \in Forms(tab.fl) : SetSlot(i, k, form)
+DoAppendSlot == \E k \in KeysOfFl(tab.fl) : \E form \in Forms(tab.fl) : AppendSlot(k, form)
+DoAddCertificate == \E k \in KeysOfFl(tab.fl) : AddCertificate(k)
+DoSetAll == \E a, b \in KeysOfFl(tab.fl) : \E ks \in {<<a>>, <<a, b>>} : SetAll(ks)
+LStartT == lane = "tab" /\ tab.fl = "none" /\ DoStartT /\ UNCHANGED lane
+LSetSlot == lane = "tab" /\ DoSetSlot /\ UNCHANGED lane
+LAppendSlot == lane = "tab" /\ DoAppendSlot /\ UNCHANGED lane
+LClearT == lane = "tab" /\ ClearT /\ UNCHANGED lane
+LAddCertificate == lane = "tab" /\ DoAddCertificate /\ UNCHANGED lane
+LSetAll == lane = "tab" /\ DoSetAll /\ UNCHANGED lane
+LComputeT == lane = "tab" /\ ComputeT /\ UNCHANGED lane
 LCompute == lane = "compute" /\ DoCompute /\ UNCHANGED lane
 LComputeFor == lane = "compute" /\ DoComputeFor /\ UNCHANGED lane
 LWriteFile == lane = "files" /\ DoWriteFile /\ UNCHANGED lane
@@ -43,11 +64,27 @@ LParse1 == lane = "cb1" /\ Parse1 /\ UNCHANGED lane
 LSetImageLength == lane = "cb1" /\ DoSetImageLength /\ UNCHANGED lane
 Next == \/ LCompute \/ LComputeFor \/ LWriteFile \/ LReadByPath \/ LBuild21 \/ LExport21 \/ LParse21 \/ LSetUserData \/ LSetConstraints
         \/ LBuild1 \/ LExport1 \/ LParse1 \/ LSetImageLength
+        \/ LStartT \/ LSetSlot \/ LAppendSlot \/ LClearT \/ LAddCertificate \/ LSetAll \/ LComputeT
 MCInit == Init /\ lane \in {"compute", "files", "cb21", "cb1"}
 Spec == MCInit /\ [][Next]_<<vars, lane>>
+\* the construction-history lane is checked by a run of its own (RotMC_tab.cfg), beside the others
+MCInitTab == Init /\ lane = "tab"
+SpecTab == MCInitTab /\ [][Next]_<<vars, lane>>
 Bounded == obj.ud.v <= 2 /\ TLCGet("level") <= (CASE lane = "files" -> 4 [] lane = "compute" -> 2 [] OTHER -> 6)
 \* the value a block reports never changes along a history (only Build chooses keys)
 RkthStable == [][obj.kind = obj'.kind /\ obj.kind # "none" /\ act'.a \notin {"Build21", "Build1"} => obj'.keys = obj.keys]_<<vars, lane>>
+\* a write touches the slot it names and no other (a later write REPLACES, it does not shift); appending and clearing are what they say
+WriteIsLocal == [][/\ (act'.a = "SetSlot" => /\ Len(tab'.slots) = Len(tab.slots) /\ tab'.slots[act'.i].k = act'.k
+                                              /\ \A j \in 1..Len(tab.slots) : j # act'.i => tab'.slots[j] = tab.slots[j])
+                   /\ (act'.a = "AppendSlot" => SubSeq(tab'.slots, 1, Len(tab.slots)) = tab.slots /\ Len(tab'.slots) = Len(tab.slots) + 1)
+                   /\ (act'.a = "SetAll" => FinalKeys(tab'.slots) = act'.keys)
+                   /\ (act'.a \in {"ComputeT", "AddCertificate"} => tab'.slots = tab.slots)]_<<vars, lane>>
+\* two objects that hold the same key list hand out the same value, whatever happened to them before (the value is a function of the
+\* contents): checked as "the value of the object = the value of a FRESH object built from its key list in one go"
+SameAsFresh == act.a = "ComputeT" =>
+   LET pre   == [i \in 1..Count(tab.slots) |-> tab.slots[i]]
+       fresh == [fl |-> tab.fl, slots |-> IF Indexed(tab.fl) THEN Pad4(pre) ELSE pre, cert |-> NoKey] IN
+   TabLegal(fresh) /\ act.term = TabTerm(fresh) /\ act.table = TabTable(fresh)
 \* the revision is not decoration: in this world the two revisions of famA yield DIFFERENT values for the same key list, and the name
 \* "latest" yields the value of the revision it stands for
 RevisionMatters == act.a = "ComputeFor" =>
